@@ -421,6 +421,25 @@ def v_finish(c, cases, ans):
                  '%d proved at a symbolic point, %d at a sample point, %d undecided' % (nsym, nconc, nundec))
 
 
+# ------------------------------------------------------------------------------------------------ open known findings
+NORMAL_1D_SIG = 'normal:1d-unstructured-both-ends-positive'
+
+
+def normal_1d_unstructured_probe():
+    """recorded minimal input of the open finding: one line element as a ConnectedTopology (non-structured transforms); the outward
+    unit normal of the interval [0,1] is +1 at x=1 and -1 at x=0 (it points away from the centroid).  True = still fails."""
+    from nutils import topology, function, element, transformseq
+    from nutils.elementseq import References
+    dom = topology.ConnectedTopology('X', References.uniform(element.LineReference(), 1), transformseq.IndexTransforms(1, 1), transformseq.IndexTransforms(1, 1), [numpy.repeat(-1, 2)])
+    geom = function.transforms_coords('X', dom.transforms)
+    x, n = dom.boundary.sample('gauss', 1).eval([geom, function.normal(geom)])
+    x = numpy.asarray(x, dtype=float).reshape(-1); n = numpy.asarray(n, dtype=float).reshape(-1)
+    if sorted(x.tolist()) != [0., 1.] or len(n) != 2:
+        raise ValueError('unexpected boundary sample %r' % (x,))
+    outward = (x - .5) * 2
+    return bool(abs(n - outward).max() > 1e-12)
+
+
 # ------------------------------------------------------------------------------------------------ main
 def run(c):
     c.rule = ('(topology kind x refinement variant x geometry map kind x polynomial fields x sample scheme): topologies from a zoo that covers the unit box in '
@@ -487,6 +506,27 @@ def run(c):
             for v in [z] + [r for r in (ZOO.refine(z, c.rng, 'refined'), ZOO.refine(z, c.rng, 'hier')) if r is not None and len(r.topo) <= 500]:
                 for name in ('boundary', 'interfaces', 'integral'):
                     run_stream(name, v, 'affine')
+    # open known findings: re-run their recorded minimal inputs
+    for entry in c.findings:
+        if entry.get('status') == 'open' and entry.get('signature') == NORMAL_1D_SIG:
+            try:
+                still = normal_1d_unstructured_probe()
+            except Exception as e:
+                c.count('known-finding-probe-exception:' + type(e).__name__); still = False
+            c.report_known_still_failing(entry, still)
+    # geometry on a basis of topo.refined, operators on finer levels (target of TransformLinear is a strict ancestor): deterministic core,
+    # then one random depth / geometry kind per non-product zoo entry
+    try:
+        st.refined_target_core()
+    except Infra:
+        raise
+    except Exception as e:
+        c.failing_input('exception:refined_target:%s' % type(e).__name__, 'real code raises %s: %s in stream refined_target (core)' % (type(e).__name__, str(e)[:120]), dict(stream='refined_target'))
+    for i, z in enumerate(st.zoo):
+        if not z.spaces:
+            for kind in ([kinds[(c.seed + i) % 3]] if quick else kinds):
+                run_stream('refined_target', z, kind)
+    c.log('refined-target streams done')
     for rnd in range(rounds):
         c.rng.shuffle(order)
         for i, z in enumerate(order):
